@@ -251,3 +251,181 @@ Proof.
       * apply int_unparsable; auto.
       * eapply int_below_min; eauto.
 Qed.
+
+(* ---------- Entrez gene id ---------- *)
+Definition e_entrez : ecls :=
+  mk (Some [(s2l "0", VNone)]) (Some 0%Z) ["EntrezGeneId"; "IntegerColumn"; MCCR] ["IntegerColumn"; MCCR] ["MafColumnRecord"].
+
+Lemma entrez_build O t :
+  cls_build O (mk_r e_entrez None) t =
+  match py_int t with
+  | Some z => Ok (if Z.eqb z 0 then VNone else VInt z)
+  | None => if str_eqb t (s2l "0") then Ok VNone else Raise ValueError
+  end.
+Proof.
+  unfold cls_build. cbn. change (s2l "0") with [48%N]. destruct (str_eqb t [48%N]) eqn:E.
+  - apply str_eqb_eq in E. subst. reflexivity.
+  - unfold build_int. destruct (py_int t) as [z|]; [|reflexivity].
+    cbn. destruct z; reflexivity.
+Qed.
+
+Lemma entrez_meets O e t :
+  shape DEntrez = Some e ->
+  (forall v, zone DEntrez t = ZAccept v -> fo O e t = Valid v) /\
+  (zone DEntrez t = ZReject -> fo O e t = Invalid).
+Proof.
+  intros Hs. simpl in Hs. injection Hs as <-. fold e_entrez. unfold zone.
+  unfold fo, field_outcome. rewrite entrez_build.
+  unfold zone_int. destruct (py_int t) as [z|] eqn:Hp.
+  - destruct (str_eqb (render_int z) t) eqn:Hc; [|split; discriminate].
+    destruct (z <? 0)%Z eqn:Hneg.
+    + split; [discriminate|]. intros _.
+      assert (Hz : Z.eqb z 0 = false) by (apply Z.eqb_neq; apply Z.ltb_lt in Hneg; lia).
+      rewrite Hz. unfold cls_value_invalid, in_null_values, cls_validate_raw. cbn. now rewrite Hneg.
+    + split; [|destruct (Z.eqb z 0); discriminate].
+      intros v Hv. destruct (Z.eqb z 0) eqn:Hz; injection Hv as <-.
+      * reflexivity.
+      * unfold cls_value_invalid, in_null_values, cls_validate_raw, cls_text_has_sep, col_str, ecls_str. cbn.
+        rewrite Hneg. cbn. now rewrite contains_sep_int.
+  - split; [discriminate|]. intros _.
+    destruct (str_eqb t (s2l "0")) eqn:E; [|reflexivity].
+    apply str_eqb_eq in E. subst. discriminate.
+Qed.
+
+(* ---------- DNA ---------- *)
+Lemma dna_meets O nullable e t :
+  shape (DDna nullable) = Some e -> contains_sep t = false ->
+  (forall v, zone (DDna nullable) t = ZAccept v -> fo O e t = Valid v) /\
+  (zone (DDna nullable) t = ZReject -> fo O e t = Invalid).
+Proof.
+  intros Hs Hsep. simpl in Hs. injection Hs as <-. unfold zone.
+  destruct (str_eqb t []) eqn:E.
+  - apply str_eqb_eq in E. subst. destruct nullable; split; try discriminate.
+    + intros v Hv; injection Hv as <-. reflexivity.
+    + intros _. reflexivity.
+  - destruct (str_eqb t [DASH] || forallb acgt t) eqn:Hd.
+    + split; [|discriminate]. intros v Hv; injection Hv as <-.
+      unfold fo, field_outcome, cls_build, cls_value_invalid, in_null_values, cls_validate_raw, cls_text_has_sep.
+      destruct nullable; cbn; rewrite ?E; cbn; rewrite ?E, Hsep; cbn;
+        (destruct (str_eqb t [DASH]) eqn:Hdash; [reflexivity|]); cbn in Hd; rewrite Hd; reflexivity.
+    + split; [discriminate|]. intros _.
+      apply orb_false_iff in Hd as [Hd1 Hd2].
+      unfold fo, field_outcome, cls_build, cls_value_invalid, in_null_values, cls_validate_raw.
+      destruct nullable; cbn; rewrite ?E; cbn; rewrite Hd1, Hd2; reflexivity.
+Qed.
+
+(* ---------- Transcript strand ---------- *)
+Lemma strand_meets O e t :
+  shape DStrand = Some e ->
+  (forall v, zone DStrand t = ZAccept v -> fo O e t = Valid v) /\
+  (zone DStrand t = ZReject -> fo O e t = Invalid).
+Proof.
+  intros Hs. simpl in Hs. injection Hs as <-. unfold zone.
+  destruct (str_eqb t []) eqn:E.
+  - apply str_eqb_eq in E; subst. split; [|discriminate]. intros v Hv; injection Hv as <-. reflexivity.
+  - unfold zone_int. unfold fo, field_outcome, cls_build. cbn. rewrite E. unfold build_int.
+    destruct (py_int t) as [z|] eqn:Hp.
+    + destruct (str_eqb (render_int z) t); [|split; discriminate].
+      destruct (Z.eqb z 1 || Z.eqb z (-1)) eqn:Hz.
+      * split; [|discriminate]. intros v Hv; injection Hv as <-.
+        unfold cls_value_invalid, in_null_values, cls_validate_raw, cls_text_has_sep, col_str, ecls_str. cbn.
+        rewrite ?Hz. cbn. now rewrite contains_sep_int.
+      * split; [discriminate|]. intros _.
+        unfold cls_value_invalid, in_null_values, cls_validate_raw. cbn. now rewrite ?Hz.
+    + split; [discriminate|]. reflexivity.
+Qed.
+
+(* ---------- the must-be-null mixin over any base (C05) ---------- *)
+(* mixing RequireNullValue in changes only __validate__: a built value is valid
+   exactly when it is one of the base's null values *)
+Lemma rnv_outcome O e t :
+  e_custom e = true ->
+  fo O (with_rnv e) t =
+  match cls_build O (mk_r e None) t with
+  | Raise _ => Invalid
+  | Ok v => if in_null_values e v then (if cls_text_has_sep (mk_r e None) v then Invalid else Valid v) else Invalid
+  end.
+Proof.
+  intros Hc. unfold fo, field_outcome.
+  assert (Hb : cls_build O (mk_r (with_rnv e) None) t = cls_build O (mk_r e None) t).
+  { unfold cls_build, cls_build_raw. cbn. reflexivity. }
+  rewrite Hb. destruct (cls_build O (mk_r e None) t) as [v|x]; [|reflexivity].
+  unfold cls_value_invalid. cbn [r_self mk_r with_rnv e_custom e_null]. rewrite Hc.
+  unfold in_null_values at 1. cbn [e_null with_rnv].
+  fold (in_null_values e v). destruct (in_null_values e v).
+  - cbn. unfold cls_text_has_sep, col_str, ecls_str. cbn. reflexivity.
+  - unfold cls_validate_raw. cbn. reflexivity.
+Qed.
+
+(* under a must-be-null column only null values are ever valid *)
+Lemma rnv_only_null O e t v :
+  e_custom e = true -> fo O (with_rnv e) t = Valid v -> in_null_values e v = true.
+Proof.
+  intros Hc. rewrite rnv_outcome by assumption.
+  destruct (cls_build O (mk_r e None) t) as [w|]; [|discriminate].
+  destruct (in_null_values e w) eqn:E; [|discriminate].
+  destruct (cls_text_has_sep _ w); [discriminate|]. intros H; injection H as <-. exact E.
+Qed.
+
+Lemma fo_valid_inv O e t v :
+  fo O e t = Valid v ->
+  cls_build O (mk_r e None) t = Ok v /\ cls_value_invalid (mk_r e None) v = false /\
+  cls_text_has_sep (mk_r e None) v = false.
+Proof.
+  unfold fo, field_outcome. destruct (cls_build O (mk_r e None) t) as [w|]; [|discriminate].
+  destruct (cls_value_invalid _ w) eqn:A1; [discriminate|].
+  destruct (cls_text_has_sep _ w) eqn:A2; [discriminate|]. intros H; injection H as <-. auto.
+Qed.
+
+Lemma fo_invalid_inv O e t :
+  fo O e t = Invalid ->
+  (exists x, cls_build O (mk_r e None) t = Raise x) \/
+  (exists w, cls_build O (mk_r e None) t = Ok w /\
+             (cls_value_invalid (mk_r e None) w = true \/ cls_text_has_sep (mk_r e None) w = true)).
+Proof.
+  unfold fo, field_outcome. destruct (cls_build O (mk_r e None) t) as [w|x]; [|eauto].
+  destruct (cls_value_invalid _ w) eqn:A1; [eauto|].
+  destruct (cls_text_has_sep _ w) eqn:A2; [eauto|discriminate].
+Qed.
+
+Lemma shape_custom d : forall ec, shape d = Some ec -> e_custom ec = true.
+Proof.
+  induction d; intros ec H; simpl in H; try discriminate;
+    repeat match type of H with
+    | context [if ?b then _ else _] => destruct b
+    | context [match ?b with true => _ | false => _ end] => destruct b
+    end; try discriminate; try (injection H as <-; reflexivity).
+  destruct (shape d) as [e'|]; [|discriminate]. simpl in H. injection H as <-.
+  simpl. eauto.
+Qed.
+
+(* ---------- all proved kinds together ---------- *)
+Theorem class_meets_descr O d : forall ec t,
+  shape d = Some ec -> contains_sep t = false ->
+  (forall v, zone d t = ZAccept v -> fo O ec t = Valid v) /\
+  (zone d t = ZReject -> fo O ec t = Invalid).
+Proof.
+  induction d; intros ec t Hs Hsep; try (simpl in Hs; discriminate).
+  - now apply text_meets.
+  - now apply int_meets.
+  - now apply entrez_meets.
+  - now apply dna_meets.
+  - now apply strand_meets.
+  - (* DMustNull d *)
+    simpl in Hs. destruct (shape d) as [eb|] eqn:Hb; [|discriminate]. simpl in Hs. injection Hs as <-.
+    specialize (IHd eb t eq_refl Hsep) as [IHa IHr].
+    pose proof (shape_custom _ _ Hb) as Hc.
+    cbn [zone]. rewrite Hb. rewrite rnv_outcome by assumption.
+    destruct (zone d t) as [v| |] eqn:Hz.
+    + specialize (IHa v eq_refl). apply fo_valid_inv in IHa as (B1 & B2 & B3).
+      rewrite B1. destruct (in_null_values eb v) eqn:Hn.
+      * split; [|discriminate]. intros w Hw; injection Hw as <-. now rewrite B3.
+      * split; [discriminate|]. reflexivity.
+    + split; [discriminate|]. intros _. specialize (IHr eq_refl).
+      apply fo_invalid_inv in IHr as [[x Hx]|[w [Hw [Hi|Hi]]]].
+      * now rewrite Hx.
+      * rewrite Hw. unfold cls_value_invalid in Hi. cbn [r_self mk_r] in Hi. rewrite Hc in Hi.
+        destruct (in_null_values eb w); [discriminate|reflexivity].
+      * rewrite Hw. destruct (in_null_values eb w); [now rewrite Hi|reflexivity].
+    + split; discriminate.
+Qed.
